@@ -1,6 +1,8 @@
 import DocsModel.Model.Bytes
 import DocsModel.Model.Entry
 import DocsModel.Model.Spec
+import DocsModel.Model.Tables
+import DocsModel.Model.QuerySpec
 /-!
 Line-protocol driver: one output line per input line. The Rust harness pipes the same operation
 lines it applied to the real crate and compares the two output streams.
@@ -13,9 +15,14 @@ def parseNat? (s : String) : Option Nat := s.toNat?
 def parseBool? (s : String) : Option Bool :=
   if s = "1" then some true else if s = "0" then some false else none
 
-/-- entry token: `ns,author,key,ts,len,hash,sig,nsok,auok` (hex byte strings, `-` = empty) -/
+/-- entry token: `ns,author,key,ts,len,hash,sig,nsok,auok[,fp]` (hex byte strings, `-` = empty) -/
 def parseEntry? (tok : String) : Option Entry :=
   match tok.splitOn "," with
+  | [ns, au, key, ts, len, hash, sig, nsok, auok, fp] => do
+    pure { ns := ← Bytes.ofHex ns, author := ← Bytes.ofHex au, key := ← Bytes.ofHex key,
+           ts := ← parseNat? ts, len := ← parseNat? len, hash := ← Bytes.ofHex hash,
+           sig := ← parseNat? sig, nsSigOk := ← parseBool? nsok, authorSigOk := ← parseBool? auok,
+           fp := ← Bytes.ofHex fp }
   | [ns, au, key, ts, len, hash, sig, nsok, auok] => do
     pure { ns := ← Bytes.ofHex ns, author := ← Bytes.ofHex au, key := ← Bytes.ofHex key,
            ts := ← parseNat? ts, len := ← parseNat? len, hash := ← Bytes.ofHex hash,
@@ -34,6 +41,7 @@ def showEntries (es : List Entry) : String :=
 structure World where
   specStores : List (Nat × Spec.Store) := []
   offered : List (Nat × List Entry) := []
+  tstores : List (Nat × Tables.T) := []
 
 namespace World
 
@@ -44,7 +52,41 @@ def getOffered (w : World) (sid : Nat) : List Entry := (w.offered.lookup sid).ge
 def addOffered (w : World) (sid : Nat) (e : Entry) : World :=
   { w with offered := (sid, e :: w.getOffered sid) :: w.offered.filter (·.1 != sid) }
 
+def getT (w : World) (sid : Nat) : Option Tables.T := w.tstores.lookup sid
+def setT (w : World) (sid : Nat) (t : Tables.T) : World :=
+  { w with tstores := (sid, t) :: w.tstores.filter (·.1 != sid) }
+
 end World
+
+open Tables in
+def parseKeyFilter? (s : String) : Option KeyFilter :=
+  if s = "any" then some .any
+  else match s.splitOn ":" with
+    | ["exact", h] => (Bytes.ofHex h).map .exact
+    | ["pre", h] => (Bytes.ofHex h).map .pre
+    | _ => none
+
+open Tables in
+def parseAuthorFilter? (s : String) : Option AuthorFilter :=
+  if s = "*" then some .any else (Bytes.ofHex s).map .exact
+
+open Tables in
+/-- `<kind> <author|*> <keyfilter> <limit|-> <offset> <incl> <desc>` -/
+def parseQuery? : List String → Option Query
+  | [kind, au, kf, lim, off, incl, desc] => do
+    let kind ← (match kind with
+      | "flat-ak" => some (QueryKind.flat .authorKey)
+      | "flat-ka" => some (QueryKind.flat .keyAuthor)
+      | "latest" => some QueryKind.latestPerKey
+      | _ => none)
+    let limit ← (if lim = "-" then some none else (parseNat? lim).map some)
+    pure { kind, author := ← parseAuthorFilter? au, key := ← parseKeyFilter? kf, limit,
+           offset := ← parseNat? off, includeEmpty := ← parseBool? incl, desc := ← parseBool? desc }
+  | _ => none
+
+def showHeads (hs : List (Bytes × Nat × Bytes)) : String :=
+  "heads " ++ toString hs.length ++ " " ++
+    ";".intercalate (hs.map fun (a, ts, k) => a.toHex ++ ":" ++ toString ts ++ ":" ++ k.toHex)
 
 /-- sort a list of entries by id (insertion sort through `insertSorted`; ids are unique in a join
 under `PayloadFunctional`, duplicates by id would be collapsed — the harness flags those cases) -/
@@ -95,6 +137,61 @@ def step (w : World) (line : String) : World × String :=
     match parseNat? sid with
     | some sid => (w, showEntries (sortById (Spec.join (w.getOffered sid))))
     | none => (w, "bad-op")
+  -- ---- table level (Tables.lean) ----
+  | ["tnew", sid] =>
+    match parseNat? sid with
+    | some sid => (w.setT sid {}, "ok")
+    | none => (w, "bad-op")
+  | ["tns", sid, ns, kind, raw] =>
+    match parseNat? sid, Bytes.ofHex ns, parseNat? kind, Bytes.ofHex raw with
+    | some sid, some ns, some kind, some raw =>
+      match w.getT sid with
+      | some t =>
+        let (t', out) := Tables.importNamespace t ns kind raw
+        (w.setT sid t', match out with | .inserted => "inserted" | .upgraded => "upgraded" | .noChange => "nochange")
+      | none => (w, "no-store")
+    | _, _, _, _ => (w, "bad-op")
+  | ["tput", sid, tok] =>
+    match parseNat? sid, parseEntry? tok with
+    | some sid, some e =>
+      match w.getT sid with
+      | some t =>
+        let (t', out) := Tables.put t e
+        (w.setT sid t', match out with | .notInserted => "notinserted" | .inserted n => "inserted " ++ toString n)
+      | none => (w, "no-store")
+    | _, _ => (w, "bad-op")
+  | "tquery" :: sid :: ns :: rest =>
+    match parseNat? sid, Bytes.ofHex ns, parseQuery? rest with
+    | some sid, some ns, some q =>
+      match w.getT sid with
+      | some t => (w, showEntries (Tables.query t ns q))
+      | none => (w, "no-store")
+    | _, _, _ => (w, "bad-op")
+  -- the specification of a query, evaluated on the entries currently in the records table
+  | "squery" :: sid :: ns :: rest =>
+    match parseNat? sid, Bytes.ofHex ns, parseQuery? rest with
+    | some sid, some ns, some q =>
+      match w.getT sid with
+      | some t => (w, showEntries (QuerySpec.spec t.records ns q))
+      | none => (w, "no-store")
+    | _, _, _ => (w, "bad-op")
+  | ["tgetexact", sid, ns, au, key, incl] =>
+    match parseNat? sid, Bytes.ofHex ns, Bytes.ofHex au, Bytes.ofHex key, parseBool? incl with
+    | some sid, some ns, some au, some key, some incl =>
+      match w.getT sid with
+      | some t =>
+        match Tables.getExact t.records ns au key incl with
+        | some e => (w, "some " ++ showEntry e)
+        | none => (w, "none")
+      | none => (w, "no-store")
+    | _, _, _, _, _ => (w, "bad-op")
+  | ["theads", sid, ns] =>
+    match parseNat? sid, Bytes.ofHex ns with
+    | some sid, some ns =>
+      match w.getT sid with
+      | some t => (w, showHeads (Tables.latestForEachAuthor t ns))
+      | none => (w, "no-store")
+    | _, _ => (w, "bad-op")
   | _ => (w, "bad-op")
 
 partial def loop (hin hout : IO.FS.Stream) (w : World) : IO Unit := do
